@@ -18,10 +18,10 @@ impl Check for C07 {
         tier.pick(900, 60_000)
     }
     fn rule(&self) -> String {
-        "case = a seeded multi-replica history (15–120 steps quick, up to 400 thorough so that histories exceed the clock-cache step of 16/32 changes) merged into one document; for up to 6 (12) head sets H — head sets that occurred on any replica (incl. heads of concurrent branches and merged states) and random antichains of the DAG — three views must agree: the *_at(H) reads of the full document (get, get_all, keys, length, text, list/map ranges, marks, spans, get_marks via OBS; hydrate, values, parents, cursor positions separately), the plain reads of fork_at(H), and REF(ancestors(H)); fork_at(H).get_heads() = H. Non-trivial = H strictly historical and on a concurrent branch or >16 changes deep; distinct by (history fingerprint, H).".into()
+        "case = a seeded multi-replica history (15–120 steps quick, up to 400 thorough so that histories exceed the clock-cache step of 16/32 changes) merged into one document (in half of the cases a new actor that sorts first then opens and rolls back its first transaction on it, so that an actor index is inserted and removed); for up to 6 (12) head sets H — head sets that occurred on any replica (incl. heads of concurrent branches and merged states) and random antichains of the DAG — three views must agree: the *_at(H) reads of the full document (get, get_all, keys, length, text, list/map ranges, marks, spans, get_marks via OBS; hydrate, values, parents, cursor positions separately), the plain reads of fork_at(H), and REF(ancestors(H)); fork_at(H).get_heads() = H. Non-trivial = H strictly historical and on a concurrent branch or >16 changes deep; distinct by (history fingerprint, H).".into()
     }
     fn required_counters(&self) -> Vec<&'static str> {
-        vec!["head_sets_checked", "strictly_historical", "concurrent_branch_heads", "deep_heads_gt16", "random_antichains", "cursor_positions_compared", "parents_compared", "hydrates_compared"]
+        vec!["head_sets_checked", "strictly_historical", "concurrent_branch_heads", "deep_heads_gt16", "random_antichains", "cursor_positions_compared", "parents_compared", "hydrates_compared", "actor_inserted_and_removed"]
     }
     fn run_case(&self, cx: &mut Ctx, _case: u64, rng: &mut Rng) {
         let enc = enc_for(rng);
@@ -32,6 +32,17 @@ impl Check for C07 {
         w.run(rng, steps);
         let log = w.log.clone();
         let mut doc = w.merged();
+        if rng.chance(50) {
+            // a new actor whose id sorts before the existing ones opens its first transaction and
+            // abandons it: the actor is inserted into and removed from the actor table again, which
+            // renumbers the actors behind it (cached clocks must follow)
+            use automerge::transaction::Transactable;
+            let mut probe = doc.clone().with_actor(actor(7));
+            let _ = probe.put(automerge::ROOT, "abandoned", 1);
+            probe.rollback();
+            doc = probe;
+            cx.count("actor_inserted_and_removed");
+        }
         if !check_h3(cx, &doc, "merged document") {
             return;
         }
